@@ -247,6 +247,7 @@ func runC17(r *Report) {
 	ruleWalkSkipsRoot(r)
 	ruleByteAPICopies(r)
 	ruleSyncFailureRollsBack(r)
+	ruleStickyWriteError(r)
 	// the string flavour's own validation returns the same sentinel
 	if fn := p.Func("simpledb.DB.Put"); fn != nil {
 		key := rd + "/simpledb.DB.Put/same-sentinel"
@@ -306,6 +307,24 @@ func lenTestsOn(fn *ssa.Function, p *ssa.Parameter) (zero, nonZero []Edge) {
 			nonZero = append(nonZero, Edge{b, b.Succs[1-zi]})
 			continue
 		}
+		// a validation helper that returns an error: `if err := validate(k, v); err != nil { return err }`
+		if x, nilS, nonNilS, nE, nnE, isN := nilTest2(b); isN && nE && nnE {
+			if c, isC := x.(*ssa.Call); isC {
+				if sc := c.Call.StaticCallee(); sc != nil && inModule(sc) && sc.Blocks != nil && sc.Signature.Results().Len() == 1 && isErrorType(sc.Signature.Results().At(0).Type()) {
+					for i, a := range c.Call.Args {
+						if !isP(a) || i >= len(sc.Params) {
+							continue
+						}
+						whenEmpty, ok1 := evalLenPredicate(sc, i, true)
+						whenFull, ok2 := evalLenPredicate(sc, i, false)
+						if ok1 && ok2 && whenEmpty && !whenFull {
+							zero = append(zero, Edge{b, nonNilS})
+							nonZero = append(nonZero, Edge{b, nilS})
+						}
+					}
+				}
+			}
+		}
 		// a validation helper: bool function of the arguments built from len(...) tests
 		if c, ok := iff.Cond.(*ssa.Call); ok {
 			if sc := c.Call.StaticCallee(); sc != nil && inModule(sc) && sc.Blocks != nil {
@@ -344,6 +363,24 @@ func returnedSentinel(b *ssa.BasicBlock) string {
 			}
 			if g := globalLoad(x.Results[idx]); g != "" {
 				return g
+			}
+			// the error of a module helper that is forwarded as it is: what that helper returns when it fails
+			if c, isC := x.Results[idx].(*ssa.Call); isC {
+				if sc := c.Call.StaticCallee(); sc != nil && inModule(sc) && sc.Blocks != nil && sc.Signature.Results().Len() == 1 {
+					only := ""
+					for _, rs := range returnsOf(sc) {
+						v := rs.Instr.(*ssa.Return).Results[0]
+						if isNilConst(v) {
+							continue
+						}
+						g := globalLoad(v)
+						if g == "" || (only != "" && only != g) {
+							return ""
+						}
+						only = g
+					}
+					return only
+				}
 			}
 			// functions with defer spill the result into a cell: look through it
 			if k, vals := returnErrOperand(x, idx); k == "val" && len(vals) == 1 {
@@ -473,6 +510,10 @@ func evalLenPredicate(f *ssa.Function, idx int, empty bool) (bool, bool) {
 				pred = b
 				b = b.Succs[0]
 			case *ssa.Return:
+				if isErrorType(x.Results[0].Type()) {
+					// an error-returning validation helper: "true" stands for "rejects" (a non-nil error)
+					return !isNilConst(x.Results[0]), true
+				}
 				return evalCond(x.Results[0], vals)
 			}
 		}
